@@ -529,6 +529,8 @@ theorem respPass_backed {N : Nat} {s s' : State} {k i D m V dp : Nat} {cr : List
           · unfold Backed L; simp only []
             rw [sumMap_set wpOf _ _ hk, sumMap_set natOf _ _ hk, sumMap_set spVal _ _ hi, ev]
             have hc : ∀ (sp : SP) x, credit sp x ≤ x := by intro sp x; unfold credit; split <;> omega
+            have hvd : valDebit s.nvr0 D V ≤ D ∧ D ≤ valDebit s.nvr0 D V + V ∧ D + valCredit s.nvr0 V ≤ valDebit s.nvr0 D V + V := by
+              unfold valDebit valCredit; split <;> omega
             have := hc { offers := ‹SP›.offers, stake := ‹SP›.stake - dp, rewards := ‹SP›.rewards, dead := ‹SP›.dead } (D - m - V)
             simp only [ha, hcp, hsp, wpOf, natOf, spVal] at h1 h2 h3 ⊢
             omega
@@ -633,7 +635,7 @@ theorem updExtend_backed {N : Nat} {s s' : State} {k size : Nat} {ds : List Int}
             cases h
             obtain ⟨f1, f2, _, fo, _⟩ := extendAll_effect hx
             obtain ⟨g1, g2, g3, g4, g5, _⟩ := extendAll_spVal hx
-            have hsum := (adjust_sum hadj).2
+            have hsum := adjust_pools hadj
             have hsn : ∀ x, s.sps x = none → s1.sps x = none := by
               intro x hxn; have := fo x; rw [hxn] at this; exact map_eq_none' this
             refine ⟨?_, ?_, ?_⟩
